@@ -54,7 +54,15 @@ impl StreamState {
 }
 
 pub struct Stream {
+    /// Send window of the frontend H2 connection for this stream (what the
+    /// client lets us send), RFC 9113 §6.9.
     pub window: i32,
+    /// Send window of the backend H2 connection for this stream (what the
+    /// backend lets us send). Distinct from [`Self::window`]: the two peers
+    /// advertise unrelated `SETTINGS_INITIAL_WINDOW_SIZE` values and send
+    /// their own `WINDOW_UPDATE`s. Initialised by `ConnectionH2::start_stream`
+    /// from the backend's settings.
+    pub back_window: i32,
     pub attempts: u8,
     pub state: StreamState,
     /// True when the frontend connection has received end_of_stream from the client.
@@ -96,6 +104,7 @@ impl Debug for Stream {
     fn fmt(&self, f: &mut std::fmt::Formatter<'_>) -> std::fmt::Result {
         f.debug_struct("Stream")
             .field("window", &self.window)
+            .field("back_window", &self.back_window)
             .field("attempts", &self.attempts)
             .field("state", &self.state)
             .field(
@@ -147,6 +156,7 @@ impl Stream {
             state: StreamState::Idle,
             attempts: 0,
             window: i32::try_from(window).unwrap_or(i32::MAX),
+            back_window: super::h2::DEFAULT_INITIAL_WINDOW_SIZE as i32,
             front_received_end_of_stream: false,
             back_received_end_of_stream: false,
             front_data_received: 0,
@@ -242,6 +252,15 @@ impl Stream {
         front_done && back_done
     }
 
+    /// The flow-control send window of this stream on the connection at
+    /// `position`: the frontend's for `Server`, the backend's for `Client`.
+    pub fn send_window_mut(&mut self, position: &Position) -> &mut i32 {
+        match position {
+            Position::Client(..) => &mut self.back_window,
+            Position::Server => &mut self.window,
+        }
+    }
+
     pub fn split(&mut self, position: &Position) -> StreamParts<'_> {
         // Pre: the front buffer always parses requests and the back buffer
         // always parses responses. `split` only re-labels them as read/write
@@ -258,7 +277,7 @@ impl Stream {
         );
         match position {
             Position::Client(..) => StreamParts {
-                window: &mut self.window,
+                window: &mut self.back_window,
                 rbuffer: &mut self.back,
                 wbuffer: &mut self.front,
                 received_end_of_stream: &mut self.back_received_end_of_stream,
